@@ -61,4 +61,17 @@ example :
     c1.acks = [] ∧ c1.buffered = [m] := by
   decide
 
+/-- Known finding F20, machine-checked on the client model (replay: `findings/F20.trace`): a
+mutate message that carries update tick 0 and overtakes the tick-0 update message is
+acknowledged at once (index 0) and applied to nothing; the update message that follows brings
+the older value, and the client confirms the entity at tick 0 with `5` while the server had
+sent `9`.  Hypothesis `NoMutateBeforeFirstUpdateAtTickZero` of the end-to-end statement. -/
+theorem C02_known_finding_F20_witness :
+    let c : Client := { connected := true, lastNotDisconnected := true }
+    let m : Mutate := { updateTick := 0, tick := 2, index := 0, ents := [{ ent := 7, comps := [(0, 9)] }] }
+    let c1 := frame c [] [m]
+    let c2 := frame c1 [{ tick := 0, changes := [{ ent := 7, comps := [(0, 5)] }] }] []
+    c1.acks = [0] ∧ c1.buffered = [] ∧ c2.world = [(0, { marked := true, comps := [(0, 5)], hist := some 0 })] := by
+  decide
+
 end Replicon.C02
